@@ -162,8 +162,11 @@ def check(an, rep, tier):
                 par = getattr(node, '_parent', None)
                 if isinstance(par, ast.Assign):
                     ok = True
+        has_rank = any(isinstance(n_, ast.Call) and
+                       isinstance(n_.func, ast.Name) and n_.func.id == 'min'
+                       for n_ in ast.walk(fn.node))
         rep.add('S-floor', q, 'rank = max(1, ...)',
-                'ok' if ok else 'violation',
+                'ok' if ok else ('violation' if has_rank else 'unknown'),
                 '' if ok else 'the rank floor max(1, .) is gone: a bond of '
                 'size 0 becomes possible for the zero matrix',
                 line=fn.node.lineno, file=fn.module.path)
